@@ -235,13 +235,29 @@ class ExecMixin(object):
                     hint = None
         if hint is None:
             return
-        for node in ast.walk(value):
-            if isinstance(node, ast.List) and isinstance(hint, ListT):
-                node._pyvc_elem = hint.elem
-            if isinstance(node, ast.Dict) and isinstance(hint, DictT):
-                node._pyvc_dict = hint
-            if isinstance(node, ast.ListComp) and isinstance(hint, ListT):
-                node._pyvc_elem = hint.elem
+        self.annotate_node(value, hint)
+
+    def annotate_node(self, node, hint):
+        """push a static type hint down into list / dict literals and comprehensions, one nesting level per literal"""
+        if isinstance(node, ast.List) and isinstance(hint, ListT):
+            node._pyvc_elem = hint.elem
+            for el in node.elts:
+                self.annotate_node(el, hint.elem)
+        elif isinstance(node, ast.Dict) and isinstance(hint, DictT):
+            node._pyvc_dict = hint
+        elif isinstance(node, ast.ListComp) and isinstance(hint, ListT):
+            node._pyvc_elem = hint.elem
+            self.annotate_node(node.elt, hint.elem)
+        elif isinstance(node, ast.BinOp):
+            self.annotate_node(node.left, hint)
+            if not isinstance(node.op, ast.Mult):
+                self.annotate_node(node.right, hint)
+        elif isinstance(node, ast.IfExp):
+            self.annotate_node(node.body, hint)
+            self.annotate_node(node.orelse, hint)
+        elif isinstance(node, ast.BoolOp):
+            for v in node.values:
+                self.annotate_node(v, hint)
 
     def ex_AugAssign(self, s, st, ctx):
         load = s.target
